@@ -958,10 +958,16 @@ def reach_bool(fn, start, avoid_edges=(), avoid_blocks=(), cap=200000):
                     base = pl[0]
                     projs = [e for e in pl[1] if e != "*"]
                     # `if let Some(ref k) = memo_key` reads discr through a reference temp: follow one copy
-                    if base not in known and not projs:
+                    hops = 0
+                    while base not in known and not projs and hops < 3:
                         d2 = fn.defs().get(base, [])
                         if len(d2) == 1 and d2[0][2] == "assign" and d2[0][3][4][0] == "ref" and not d2[0][3][4][2][1]:
                             base = d2[0][3][4][2][0]
+                        elif len(d2) == 1 and d2[0][2] == "assign" and d2[0][3][4][0] == "use" and d2[0][3][4][1][0] in "cm" and not d2[0][3][4][1][1][1]:
+                            base = d2[0][3][4][1][1][0]       # `dest = move ret` of an inlined helper
+                        else:
+                            break
+                        hops += 1
                     kv = known.get(base)
                     if not projs and isinstance(kv, tuple) and kv[0] == "v":
                         listed = [v for v, _ in t[4]]
